@@ -344,6 +344,16 @@ def witness_search(tier, seed):
         sf = SMSimfile.blank()
         if Assets(song, simfile=sf).banner is not None or Assets(song, simfile=sf).music is not None:
             return dict(input="directory without matching entries", detail="answer is not None")
+        # extensions in truly mixed case
+        for only, kd in (("Track.Ogg", "music"), ("Intro.Mp3", "music"), ("my banner.Png", "banner"), ("x-bg.JpEg", "background")):
+            open(os.path.join(song, only), "w").write("x")
+            sf = SMSimfile.blank()
+            for k in ("BANNER", "BACKGROUND", "CDTITLE", "JACKET", "CDIMAGE", "MUSIC"):
+                sf.pop(k, None)
+            got = getattr(Assets(song, simfile=sf), kd)
+            os.remove(os.path.join(song, only))
+            if got is None or os.path.basename(got) != only:
+                return dict(input=dict(directory=[only], asked=kd), detail=f"{kd} = {got!r}: the entry has an {kd} extension in mixed case")
         # one entry whose name matches the patterns of two kinds answers for both (and all kinds may be asked of one Assets object)
         for only, kinds2 in (("jacket-bn.png", ("banner", "jacket")), ("Jk_Song BG.PNG", ("background", "jacket")), ("cdtitle-cd.png", ("cdtitle", "cdimage"))):
             open(os.path.join(song, only), "w").write("x")
@@ -387,6 +397,10 @@ def witness_search(tier, seed):
         open(os.path.join(pack, "a.JPEG"), "w").write("x")
         if os.path.basename(SimfilePack(pack).banner() or "") != "a.JPEG":
             return dict(input="z.gif and a.JPEG in the pack", detail=f"banner {SimfilePack(pack).banner()!r}")
+        os.remove(os.path.join(pack, "z.gif")), os.remove(os.path.join(pack, "a.JPEG"))
+        open(os.path.join(pack, "m.Png"), "w").write("x")
+        if os.path.basename(SimfilePack(pack).banner() or "") != "m.Png":
+            return dict(input="m.Png in the pack, Pack.jpg beside it", detail=f"banner {SimfilePack(pack).banner()!r}: the image inside the pack has a mixed-case extension")
         return None
     finally:
         shutil.rmtree(d, ignore_errors=True)
